@@ -164,7 +164,8 @@ func (f *tcpConnFile) close() experimentalsys.Errno {
 		return 0
 	}
 	f.closed = true
-	return f.Shutdown(socketapi.SHUT_RDWR)
+	// Not Shutdown(SHUT_RDWR), which is this function: the socket itself has to be closed.
+	return experimentalsys.UnwrapOSError(f.tc.Close())
 }
 
 // SetNonblock implements the same method as documented on fsapi.File
